@@ -241,11 +241,11 @@ def fault_string_fn(tree):
         return gtext(v.value)
     if isinstance(v, ast.Call) and isinstance(v.func, ast.Name) and v.func.id == 'str' and \
             len(v.args) == 1 and isinstance(v.args[0], ast.Name) and v.args[0].id == 'e':
-        return '(x_text e)'
+        return '(px_text e)'
     if attr_chain(v) == ['e', '__class__', '__name__'] or (
             isinstance(v, ast.Attribute) and v.attr == '__name__' and isinstance(v.value, ast.Call)
             and isinstance(v.value.func, ast.Name) and v.value.func.id == 'type'):
-        return '(x_type e)'
+        return '(px_type e)'
     raise TranslateError('get_fault_string_from_exception: unmodelled return expression %s' % ast.dump(v)[:120])
 
 
@@ -354,7 +354,7 @@ def generate(repo):
          ] + ['  | %s => %s' % (E(k), 'None' if code[k] is None else '(Some %s) (* %s *)' % (gtext(code[k]), code[k]))
               for k in order] + ['  end.', '',
          '(** a non-Fault Python exception, as far as any modelled code could look at it *)',
-         'Record pyexn := { x_type : text; x_text : text }.', '',
+         'Record pyexn := { px_type : text; px_text : text }.', '',
          '(** spyne.application.get_fault_string_from_exception *)',
          'Definition fault_string_from_exception (e : pyexn) : text := %s.' % fs, '',
          '(** OutProtocolBase.fault_to_http_response_code *)',
